@@ -1295,7 +1295,7 @@ func part1Concurrent(t *testing.T, r *vkit.Run) {
 		r.Inconclusive("cannot build the stack: " + err.Error())
 		return
 	}
-	per := r.N(200, 2000)
+	per := r.N(200, 5000)
 	total := workers * per
 	cases := make([]*caseSpec, total)
 	rngs := make([]*rand.Rand, total)
@@ -1498,7 +1498,7 @@ func fsEntry(r *vkit.Run, round, wr, j int) (*querylog.Entry, *fsEntrySpec) {
 }
 
 func part2(t *testing.T, r *vkit.Run) {
-	rounds := r.N(3, 12)
+	rounds := r.N(3, 20)
 	per := r.N(200, 1000)
 	for round := 0; round < rounds; round++ {
 		path := filepath.Join(scratch(t), fmt.Sprintf("c15-fs-%d.jsonl", round))
